@@ -231,7 +231,11 @@ func encodeData(ctx context.Context, typeName string, v interface{}, allTypes Ty
 	buf := bytes.NewBuffer(typeHashed)
 	log.L(ctx).Tracef("hashType(%s): %s", typeName, typeHashed)
 	// Encode the data of the struct, and write it after the hash of the type
-	for _, tm := range t {
+	for i, tm := range t {
+		if tm == nil {
+			// A JSON null in the member list, of a type the dependency walk above did not visit (as its name contains a '[')
+			return nil, i18n.NewError(ctx, signermsgs.MsgEIP712UnsupportedStrType, fmt.Sprintf("%s (member %d is null)", typeName, i))
+		}
 		b, err := encodeElement(ctx, tm.Type, vMap[tm.Name], allTypes, nextCrumb(breadcrumbs, tm.Name))
 		if err != nil {
 			return nil, err
